@@ -20,6 +20,17 @@ CHECKS = {
     ),
 }
 
+CHECKS["C02"] = dict(
+    category="proof", design_ref="DESIGN.md §6 C02", engine="parser",
+    technique="Lean 4 theorem (encode/parse round trip for every pipeline, parser total) + differential correspondence with resp.ParseStream under arbitrary chunking",
+    text="Kernel-checked theorems Resp.C02_roundtrip and C02_compositional: the model of resp/parser.go's state machine decodes every pipeline of "
+         "commands over arbitrary byte strings into exactly the encoded arguments and resets fully between commands; every model access is "
+         "checked, so the model has no crash outcome. Tied to the code by feeding well-formed and malformed streams to resp.ParseStream whole, "
+         "byte by byte and in random chunks and comparing the full event list with the model's.",
+    note="Trusted: Lean kernel (propext, Classical.choice, Quot.sound), harness/driver, bufio/io.ReadFull semantics. Bulk arguments below 512 MiB. "
+         "Isolation between connections (nothing executed after a protocol error) is exercised through the serve engine under C03.",
+)
+
 NOT_YET = "check not built yet in this round; see DESIGN.md §8"
 NOT_APPLICABLE = {}
 
